@@ -63,6 +63,10 @@ type Recorder struct {
 	// NoJobReady: do not register the scripted JobReady function (the real gang plugin decides)
 	NoJobReady bool
 	OnEvent    func(alloc int64, t *api.TaskInfo)
+	// OnJobPipelined: when set, the recorder registers an ABSTAINING JobPipelined vote and reports
+	// every call (allocate asks JobPipelined exactly when it closes a statement that is not ready:
+	// the marker that separates a kept attempt from a following one)
+	OnJobPipelined func(j *api.JobInfo)
 }
 
 const RecorderName = "verif-recorder"
@@ -113,6 +117,12 @@ func (p *recorderPlugin) OnSessionOpen(ssn *framework.Session) {
 	})
 	if !r.NoJobReady {
 		ssn.AddJobReadyFn(RecorderName, func(obj interface{}) bool { return r.JobReady })
+	}
+	if r.OnJobPipelined != nil {
+		ssn.AddJobPipelinedFn(RecorderName, func(obj interface{}) int {
+			r.OnJobPipelined(obj.(*api.JobInfo))
+			return 0 // abstain
+		})
 	}
 }
 func (p *recorderPlugin) OnSessionClose(ssn *framework.Session) {}
